@@ -18,8 +18,11 @@ Real(r) == [out |-> r.out, body |-> R(CodeName(r.body[1]), r.body[2], r.S), res 
 MsgOf(r) == [ck |-> r.ck, S |-> r.S, fs |-> r.sch]
 
 NormP(ps) == [k \in 1..Len(ps) |-> IF ps[k].n = 0 THEN El(0, 0) ELSE ps[k]]     \* an empty piece has no position
-SameRes(a, m) ==      \* recorded result a = model result m
-  /\ a.where = m.where
+\* recorded result a = model result m.  Whether a field is handed out as a pointer into the input or as a copy is the
+\* implementation's choice (the property only needs the right bytes, contiguous): "in" and "copy" are not told apart
+Kind(w) == IF w = "copy" THEN "in" ELSE w
+SameRes(a, m) ==
+  /\ Kind(a.where) = Kind(m.where)
   /\ a.where \in {"in", "copy", "wire", "iov"} => a.len = m.len
   /\ a.where = "in" => a.pos = m.pos
   /\ a.where = "copy" => (a.pos = m.pos \/ a.pos = -2)
@@ -63,7 +66,7 @@ Property(r, msg, cx) ==
              ELSE {"round trip: field not delivered " \o ToString(i) : i \in RoundTripBadC(cx, real)}
                   \cup (IF r.fx # r.fxe THEN {"round trip: fixed fields differ"} ELSE {})
                   \cup MapProblems(r, msg, cx))
-       \cup CopyProblems(r)
+       \cup {"not contained " \o ToString(x) : x \in HostileBadC(cx, r.W, SLof(r), r.part, real)} \cup CopyProblems(r)
   ELSE IF r.mode = "alter"
   THEN (IF r.ck /\ r.out = "ok" THEN {"altered byte accepted by a checked message"} ELSE {})
   ELSE {"hostile: not contained " \o ToString(x) : x \in HostileBadC(cx, r.W, SLof(r), r.part, real)} \cup CopyProblems(r)
